@@ -55,8 +55,15 @@ def _unconditional_calls(e: ast.AST) -> list[ast.Call]:
 
 
 def run(ctx: Ctx) -> None:
+    global NAME
     idx = ctx.idx
     n = 0
+    # the helper is identified by behaviour: the non-visitor method of the unitary checker that asks contain_qubit_ty
+    chk0 = idx.find_class("BBUnitaryChecker", UC)
+    cands = [nm for nm, m in chk0.methods.items() if not nm.startswith("visit")
+             and any(isinstance(c, ast.Call) and isinstance(c.func, ast.Name) and c.func.id == "contain_qubit_ty" for c in ast.walk(m.node))]
+    if cands:
+        NAME = cands[0]
     for f in idx.iter_funcs((UC,)):
         if f.name == NAME or not any(isinstance(c, ast.Call) and isinstance(c.func, ast.Attribute) and c.func.attr == NAME for c in ast.walk(f.node)):
             continue
